@@ -40,7 +40,7 @@ if s.count(a) != 1:
 open(p, "w").write(s.replace(a, b))
 PY
   then echo "edit $i ($what): PATTERN NOT FOUND OR NOT UNIQUE"; continue; fi
-  rm -rf .build/asan-rec
+  rm -rf .build/asan-rec .build/plain
   res=""
   for c in C08 C17 C19; do
     out=$(VERIF_REPO=$S/repo ./check $c --tier quick 2>&1)
@@ -53,4 +53,4 @@ PY
   done
   echo "edit $i ($what):$res"
 done
-rm -rf $S .build/asan-rec
+rm -rf $S .build/asan-rec .build/plain
